@@ -315,12 +315,15 @@ where
             wrapper_event_id: *wrapper_event_id,
         };
 
+        // Store the welcome before the record that says it was processed: if the process dies
+        // in between, the next attempt finds the stored welcome instead of a processed-welcome
+        // record that points at nothing ("welcome record missing" forever).
         self.storage()
-            .save_processed_welcome(processed_welcome)
+            .save_welcome(welcome.clone())
             .map_err(|e| Error::Welcome(e.to_string()))?;
 
         self.storage()
-            .save_welcome(welcome.clone())
+            .save_processed_welcome(processed_welcome)
             .map_err(|e| Error::Welcome(e.to_string()))?;
 
         Ok(welcome)
